@@ -1086,7 +1086,18 @@ func genHist13(r *rng) *Hist13 {
 			h.Ops[i].GCBefore = true
 		}
 	}
-	h.Fresh = r.chance(0.04)
+	// sticky process-wide state is only visible from outside the process; histories that render
+	// host time values (zone text) get the fresh-process comparison more often
+	ff := r.float()
+	h.Fresh = ff < 0.04
+	if !h.Fresh && ff < 0.15 {
+		for i := range h.Ops {
+			if p := h.Ops[i].Prog; p != nil && timeIdent.MatchString(p.Src) {
+				h.Fresh = true
+				break
+			}
+		}
+	}
 	h.Sim = simrt.Config{Seed: r.u64() | 1, ClockSeam: true, ClockBase: 1500000000 + int64(r.intn(400000000)), MaxSteps: 20_000_000}
 	h.Sim.MapMode = []int{simrt.MapShuffle, simrt.MapShuffle, simrt.MapReverse, simrt.MapRotate, simrt.MapSorted}[r.intn(5)]
 	h.Sim.MapParam = 1 + r.intn(5)
@@ -1526,6 +1537,8 @@ func freshProcessCheck(keys []pkey, t1 map[pkey]obs) *Violation {
 	}
 	return nil
 }
+
+var timeIdent = regexp.MustCompile(`(^|[^a-zA-Z0-9_."])t($|[^a-zA-Z0-9_(":])`)
 
 func pristine13Main(args []string) {
 	fs := flag.NewFlagSet("pristine13", flag.ExitOnError)
